@@ -483,10 +483,11 @@ for _k, _nm in ((0, "entry"), (1, "exit")):
 
 # ---- _makeCursiveStatements#summary: the same facts WITHOUT the ghost (usable by callers) -----------------------------------------------------
 _ANY_SIDE = "(" + _present("glyphs[a]", "entry") + " or " + _present("glyphs[a]", "exit") + ")"
+# (WORK IN PROGRESS like #entry / #exit: one invariant step needs alpha-equal sub-formulas to be recognised, notes/C06.requests.md R16 (b))
 contract(
     MCS,
     name="summary",
-    **{k: v for k, v in MCS_COMMON.items() if k != "hints"},
+    **{**{k: v for k, v in MCS_COMMON.items() if k != "hints"}, "props": []},
     ensures={
         "record-kinds": "all(result[k].kind == 'CursivePosStatement' and result[k].glyphclass.kind == 'GlyphName' for k in range(len(result)))",
         "record-glyph-is-a-given-glyph-with-a-side": "all(any(result[k].glyphclass.glyph == glyphs[a].name and " + _ANY_SIDE + " for a in range(len(glyphs))) for k in range(len(result)))",
